@@ -27,12 +27,12 @@ def codes():
 
 
 def plan(tier, seed):
-    k = 40 if tier == "quick" else 800
+    k = 96 if tier == "quick" else 800
     shards = [{"kind": "lists", "seed": seed, "shard": i, "n": 120} for i in range(k)]
     shards += [{"kind": "currencies"}]
     shards += [{"kind": "reports", "seed": seed, "shard": i, "n": 100} for i in range(k // 2)]
     shards += [{"kind": "cli", "seed": seed, "shard": i, "n": 10} for i in range(8 if tier == "quick" else 120)]
-    shards += [{"kind": "mcp", "seed": seed, "shard": i, "n": 25} for i in range(2 if tier == "quick" else 40)]
+    shards += [{"kind": "mcp", "seed": seed, "shard": i, "n": 25} for i in range(6 if tier == "quick" else 40)]
     return shards
 
 
